@@ -70,6 +70,21 @@ func nameChain(v ssa.Value, isBase func(ssa.Value) bool, res func(ssa.Value) ssa
 	if depth > 6 {
 		return false
 	}
+	// q[1:len(q)-1] of a quoted string: the two quote marks sliced off
+	if sl, ok := v.(*ssa.Slice); ok && sl.Low != nil && sl.High != nil && sl.Max == nil {
+		if k, ok := sl.Low.(*ssa.Const); ok && k.Int64() == 1 {
+			if x, kk, ok := minusConst(sl.High); ok && kk == 1 && lenOf(x) == sl.X {
+				q := sl.X
+				if tl := isCallTo(q, "strings.ToLower"); tl != nil {
+					q = tl.Common().Args[0]
+				}
+				if isCallTo(q, "strconv.QuoteToASCII") != nil {
+					return nameChain(sl.X, isBase, res, depth+1)
+				}
+			}
+		}
+		return false
+	}
 	c, ok := v.(*ssa.Call)
 	if !ok {
 		return false
